@@ -237,6 +237,11 @@ func checkRobust(r loadResult, fileName string, content []byte, origin any) {
 		vrep.Violation("hang:"+ld, fmt.Sprintf("loading %s did not return within %s; content %q", fileName, hangCeiling, clip(string(content), 300)),
 			map[string]any{"file": fileName, "content": string(content), "origin": origin})
 	}
+	if r.outcome() == "no-package" && (ld == "json" || ld == "yaml" || ld == "starlark") {
+		// a file with a BUILD file name is either a package or an error: silently ignoring it hides a malformed file
+		vrep.Violation("build-file-silently-ignored:"+ld, fmt.Sprintf("loading %s reports neither a package nor an error; content %q", fileName, clip(string(content), 300)),
+			map[string]any{"file": fileName, "content": string(content), "origin": origin})
+	}
 	if r.Panic != "" {
 		vrep.Violation("panic:"+ld+":"+r.Panic, fmt.Sprintf("loading %s panics (%s); content %q", fileName, r.PanicV, clip(string(content), 300)),
 			map[string]any{"file": fileName, "content": string(content), "origin": origin})
@@ -287,6 +292,7 @@ func TestVerif(t *testing.T) {
 	shard, shards := vrep.Shard()
 	t0 := time.Now()
 	partAgree(shard, shards)
+	partLoads(shard, shards)
 	t1 := time.Now()
 	partCorrupt(shard, shards)
 	t2 := time.Now()
